@@ -183,7 +183,7 @@ func main() {
 	if !*keep {
 		defer os.RemoveAll(dir)
 	}
-	cfg := solveCfg{dir: dir, fastS: 3, fullS: 20, workers: 16}
+	cfg := solveCfg{dir: dir, fastS: 3, fullS: 45, workers: 16}
 	if *tier == "thorough" {
 		cfg.fastS, cfg.fullS, cfg.confirm = 10, 120, true
 	}
